@@ -296,7 +296,7 @@ func spec_cand(l *LALR1, tr Transistor, a *Action, sy int) bool {
 func spec_step(l *LALR1, q int, x int) int        { panic("spec") }
 func spec_walk(l *LALR1, q int, r int, k int) int { panic("spec") }
 
-//@ axiom STEP: forall l *LALR1, q, x, i int :: 0 <= i && i < len(l.trans) && l.trans[i].q == q && l.trans[i].sym_or_rule&CheckMask == 0 && int(l.trans[i].sym_or_rule) == x ==> spec_step(l, q, x) == l.trans[i].to
+//@ axiom STEP: forall l *LALR1, q, x, i int :: wfTrans(l) && 0 <= i && i < len(l.trans) && l.trans[i].q == q && l.trans[i].sym_or_rule&CheckMask == 0 && int(l.trans[i].sym_or_rule) == x ==> spec_step(l, q, x) == l.trans[i].to
 //@ axiom STEPNONE: forall l *LALR1, q, x int :: (forall i int :: 0 <= i && i < len(l.trans) ==> !(l.trans[i].q == q && int(l.trans[i].sym_or_rule) == x)) ==> spec_step(l, q, x) == -1
 //@ axiom WALK0: forall l *LALR1, q, r int :: spec_walk(l, q, r, 0) == q
 //@ axiom WALKS: forall l *LALR1, q, r, k int :: 0 <= k && k < len(l.G.ProductoinRules[r].RighPart) ==>
@@ -309,7 +309,9 @@ func spec_walk(l *LALR1, q int, r int, k int) int { panic("spec") }
 //@     (forall i int :: 0 <= i && i < len(l.trans) ==> l.trans[i].Index == i && 0 <= l.trans[i].q &&
 //@         (l.trans[i].sym_or_rule&CheckMask != 0 ==> 0 <= int(l.trans[i].sym_or_rule&Mask) && int(l.trans[i].sym_or_rule&Mask) < len(l.G.ProductoinRules)) &&
 //@         (l.trans[i].sym_or_rule&CheckMask == 0 ==> 0 <= int(l.trans[i].sym_or_rule) && int(l.trans[i].sym_or_rule) < len(l.G.Symbols) && 0 <= l.trans[i].to)) &&
-//@     (forall k int :: has(l.DRSet, k) ==> 0 <= k && k < len(l.trans) && l.trans[k].sym_or_rule&CheckMask == 0)
+//@     (forall k int :: has(l.DRSet, k) ==> 0 <= k && k < len(l.trans) && l.trans[k].sym_or_rule&CheckMask == 0) &&
+//@     (forall i, j int :: 0 <= i && i < len(l.trans) && 0 <= j && j < len(l.trans) && l.trans[i].q == l.trans[j].q && l.trans[i].sym_or_rule == l.trans[j].sym_or_rule &&
+//@         l.trans[i].sym_or_rule&CheckMask == 0 ==> l.trans[i].to == l.trans[j].to)
 
 //@ func (*LALR1).fetchReduceTransistor
 //@ props C03 C02
@@ -324,6 +326,7 @@ func spec_walk(l *LALR1, q int, r int, k int) int { panic("spec") }
 //@ props C03 C02
 //@ results res
 //@ requires wfTrans(lalr)
+//@ requires forall i, k int :: 0 <= i && i < len(lalr.G.ProductoinRules) && 0 <= k && k < len(lalr.G.ProductoinRules[i].RighPart) ==> lalr.G.ProductoinRules[i].RighPart[k].ID < 4294967296
 //@ ensures [C03,C02] forall n int :: 0 <= n && n < len(res) ==> lookbackOK(lalr, res[n].x, res[n].y)
 //@ modifies nothing
 //@ loop 0: invariant forall n int :: 0 <= n && n < len(res) ==> lookbackOK(lalr, res[n].x, res[n].y)
@@ -333,3 +336,52 @@ func spec_walk(l *LALR1, q int, r int, k int) int { panic("spec") }
 //@     l.trans[x].sym_or_rule&CheckMask != 0 && l.trans[y].sym_or_rule&CheckMask == 0 &&
 //@     l.trans[y].sym_or_rule == l.G.ProductoinRules[int(l.trans[x].sym_or_rule&Mask)].LeftPart.ID &&
 //@     spec_walk(l, l.trans[y].q, int(l.trans[x].sym_or_rule&Mask), len(l.G.ProductoinRules[int(l.trans[x].sym_or_rule&Mask)].RighPart)) == l.trans[x].q
+
+//@ func (*LALR1).fetchTransIndex
+//@ props C03 C02
+//@ results idx, err
+//@ requires lalr != nil && 0 <= sym && sym < 4294967296
+//@ ensures err == nil ==> 0 <= idx && idx < len(lalr.trans) && lalr.trans[idx].q == state && int(lalr.trans[idx].sym_or_rule) == sym
+//@ ensures err != nil ==> (forall i int :: 0 <= i && i < len(lalr.trans) ==> !(lalr.trans[i].q == state && int(lalr.trans[i].sym_or_rule) == sym))
+//@ modifies nothing
+//@ loop 0: invariant forall i int :: 0 <= i && i < idx0 ==> !(lalr.trans[i].q == state && int(lalr.trans[i].sym_or_rule) == sym)
+
+//@ func (*LALR1).seqenceCanEpsilon
+//@ props C03 C02
+//@ results ret
+//@ requires forall k int :: 0 <= k && k < len(slice) ==> slice[k] != nil
+//@ ensures [C03] ret == (forall k int :: 0 <= k && k < len(slice) ==> slice[k].IsEpsilonClosure)
+//@ modifies nothing
+//@ loop 0: invariant ret == (forall k int :: 0 <= k && k < idx0 ==> slice[k].IsEpsilonClosure)
+
+// walk(q, r, n) is the spec function spec_walk made executable
+//@ func (*LALR1).walk
+//@ props C03 C02
+//@ results end, ok
+//@ use STEP, WALK0, WALKS
+//@ requires wfTrans(lalr) && 0 <= ruleIndex && ruleIndex < len(lalr.G.ProductoinRules) && 0 <= n && n <= len(lalr.G.ProductoinRules[ruleIndex].RighPart) && 0 <= q
+//@ requires forall k int :: 0 <= k && k < len(lalr.G.ProductoinRules[ruleIndex].RighPart) ==> lalr.G.ProductoinRules[ruleIndex].RighPart[k].ID < 4294967296
+//@ ensures [C03,C02] ok ==> end == spec_walk(lalr, old(q), ruleIndex, n) && 0 <= end
+//@ modifies nothing
+//@ loop 0: invariant 0 <= k && k <= n && q == spec_walk(lalr, old(q), ruleIndex, k) && 0 <= q && rhs == lalr.G.ProductoinRules[ruleIndex].RighPart
+
+// includes: (p, A) includes (p', B)  only if  B -> beta A gamma, gamma nullable, p' --beta--> p     (DeRemer-Pennello)
+//@ def includesOK(l *LALR1, x int, y int) = 0 <= x && x < len(l.trans) && 0 <= y && y < len(l.trans) &&
+//@     l.trans[x].sym_or_rule&CheckMask == 0 && l.trans[y].sym_or_rule&CheckMask == 0 &&
+//@     (exists ri, d int :: 0 <= ri && ri < len(l.G.ProductoinRules) && 0 <= d && d < len(l.G.ProductoinRules[ri].RighPart) &&
+//@         int(l.trans[y].sym_or_rule) == int(l.G.ProductoinRules[ri].LeftPart.ID) &&
+//@         l.G.ProductoinRules[ri].RighPart[d] == l.G.Symbols[l.trans[x].sym_or_rule] &&
+//@         (forall k int :: d < k && k < len(l.G.ProductoinRules[ri].RighPart) ==> l.G.ProductoinRules[ri].RighPart[k].IsEpsilonClosure) &&
+//@         spec_walk(l, l.trans[y].q, ri, d) == l.trans[x].q)
+
+//@ func (*LALR1).CaclIncludeRelation
+//@ props C03 C02
+//@ results res
+//@ requires wfTrans(lalr) && lalr.G.LR0 != nil && 0 <= tr && tr < len(lalr.trans) && lalr.trans[tr].sym_or_rule&CheckMask == 0
+//@ requires forall i, k int :: 0 <= i && i < len(lalr.G.ProductoinRules) && 0 <= k && k < len(lalr.G.ProductoinRules[i].RighPart) ==> lalr.G.ProductoinRules[i].RighPart[k].ID < 4294967296
+//@ requires forall i int :: 0 <= i && i < len(lalr.G.ProductoinRules) ==> lalr.G.ProductoinRules[i].LeftPart.ID < 4294967296
+//@ ensures [C03,C02] forall n int :: 0 <= n && n < len(res) ==> res[n].x == tr && includesOK(lalr, res[n].x, res[n].y)
+//@ modifies nothing
+//@ loop 0: invariant forall n int :: 0 <= n && n < len(res) ==> res[n].x == tr && includesOK(lalr, res[n].x, res[n].y)
+//@ loop 1: invariant forall n int :: 0 <= n && n < len(res) ==> res[n].x == tr && includesOK(lalr, res[n].x, res[n].y)
+//@ loop 2: invariant forall n int :: 0 <= n && n < len(res) ==> res[n].x == tr && includesOK(lalr, res[n].x, res[n].y)
